@@ -12,8 +12,19 @@
  * The postcondition of X_single is then: chaining word k == standard's chaining word k (ghost index g_k),
  * all rounds were taken in order (vfS.t == S_NR), nothing but the digest words is written.
  */
-#include "round_specs.h"
 unsigned g_k;
+#ifdef VF_MH_SEG
+/* multi-hash block functions: 16 segments advance in lock step; the proof is for an ARBITRARY segment g_s:
+ * message word t of segment s is the 32-bit word t*16+s of the 1024-byte block, chaining word k is digests[k][s] */
+#ifdef VF_SEG_CONST
+#define g_s VF_SEG_CONST /* one job per segment: the other 15 lanes fall out of the cone of influence */
+#else
+unsigned g_s;
+#endif
+#define S_MB(M, t, j) ((M)[4 * ((t) * 16 + g_s) + (j)])
+#define S_HK(H, k) ((H)[(k) * 16 + g_s])
+#endif
+#include "round_specs.h"
 
 #define VF_C_SINGLE_FN                                                                             \
         __CPROVER_requires(g_k < S_NS)                                                             \
@@ -23,6 +34,7 @@ unsigned g_k;
         __CPROVER_ensures(digest[g_k] == S_FINAL(g_k))
 
 #define VF_A_(c, msg) __CPROVER_assert(c, msg)
+#include "compress_switch.h"
 #define VF_ORDER(i) VF_A_(vfS.t == (i), "compress: rounds taken in the standard's order")
 
 #define VF_BEGIN4(A, B, C, D)                                                                      \
@@ -73,17 +85,71 @@ unsigned g_k;
 #define VF_SM3_SCHED(W_, Wb_)                                                                      \
         do {                                                                                       \
                 for (int vq = 0; vq < 68; vq++) {                                                  \
-                        VF_A_(W_[vq] == vfS.W[vq], "compress: schedule word equals the standard's W_j"); \
+                        VF_QSWITCH(W_[vq] == vfS.W[vq])                                            \
                         W_[vq] = vfS.W[vq];                                                        \
                 }                                                                                  \
                 for (int vq = 0; vq < 64; vq++) {                                                  \
-                        VF_A_(Wb_[vq] == vfS.Wb[vq], "compress: schedule word equals the standard's W'_j"); \
+                        VF_QBSWITCH(Wb_[vq] == vfS.Wb[vq])                                         \
                         Wb_[vq] = vfS.Wb[vq];                                                      \
                 }                                                                                  \
+        } while (0)
+/* SM3 rounds: loop contract - the implementation's variables equal the standard's working variables
+ * after j rounds, for an ARBITRARY j (the schedule arrays are not written by the loop) */
+#define VF_L_SM3(A, B, C, D, E, F, G, H)                                                           \
+        __CPROVER_assigns(j, A, B, C, D, E, F, G, H, vfS.t, __CPROVER_object_upto(vfS.s, sizeof(vfS.s))) \
+        __CPROVER_loop_invariant(0 <= j && j <= 64 && vfS.t == j)                                  \
+        __CPROVER_loop_invariant(A == vfS.s[0] && B == vfS.s[1] && C == vfS.s[2] && D == vfS.s[3] && \
+                                 E == vfS.s[4] && F == vfS.s[5] && G == vfS.s[6] && H == vfS.s[7]) \
+        __CPROVER_decreases(64 - j)
+#define VF_SM3_STEP(i)                                                                             \
+        do {                                                                                       \
+                VF_ORDER(i);                                                                       \
+                vf_spec_round();                                                                   \
         } while (0)
 #define VF_CUT8L(i, A, B, C, D, E, F, G, H)                                                        \
         do {                                                                                       \
                 VF_ORDER(i);                                                                       \
                 vf_spec_round();                                                                   \
-                VF_CUT8_(i, A, B, C, D, E, F, G, H)                                                \
+                VF_RSWITCH(A == vfS.s[0] && B == vfS.s[1] && C == vfS.s[2] && D == vfS.s[3] && E == vfS.s[4] && F == vfS.s[5] && G == vfS.s[6] && H == vfS.s[7]) \
+                A = vfS.s[0]; B = vfS.s[1]; C = vfS.s[2]; D = vfS.s[3]; E = vfS.s[4]; F = vfS.s[5]; G = vfS.s[6]; H = vfS.s[7]; \
         } while (0)
+
+#ifdef VF_MH_SEG
+#define VF_C_MH_SINGLE_FN                                                                          \
+        __CPROVER_requires(g_k < S_NS && g_s < 16)                                                 \
+        __CPROVER_requires(__CPROVER_r_ok(input, 1024) && __CPROVER_w_ok(digests, S_NS * 16 * sizeof(S_WORD)) && \
+                           __CPROVER_w_ok(frame_buffer, 1024))                                     \
+        __CPROVER_assigns(vfS, __CPROVER_object_upto(digests, S_NS * 16 * sizeof(S_WORD)),         \
+                          __CPROVER_object_upto(frame_buffer, 1024))                               \
+        __CPROVER_ensures(vfS.t == S_NR)                                                           \
+        __CPROVER_ensures(digests[g_k][g_s] == S_FINAL(g_k))
+#define VF_X(v) v[g_s]
+#define VF_MHBEGIN5(A, B, C, D, E)                                                                 \
+        do {                                                                                       \
+                vf_spec_begin((const uint8_t *) input, (const S_WORD *) digests);                  \
+                VF_A_(VF_X(A) == vfS.s[0] && VF_X(B) == vfS.s[1] && VF_X(C) == vfS.s[2] && VF_X(D) == vfS.s[3] && VF_X(E) == vfS.s[4], "compress: working variables loaded from the chaining value"); \
+        } while (0)
+#define VF_MHBEGIN8(A, B, C, D, E, F, G, H)                                                        \
+        do {                                                                                       \
+                vf_spec_begin((const uint8_t *) input, (const S_WORD *) digests);                  \
+                VF_A_(VF_X(A) == vfS.s[0] && VF_X(B) == vfS.s[1] && VF_X(C) == vfS.s[2] && VF_X(D) == vfS.s[3] && VF_X(E) == vfS.s[4] && VF_X(F) == vfS.s[5] && VF_X(G) == vfS.s[6] && VF_X(H) == vfS.s[7], "compress: working variables loaded from the chaining value"); \
+        } while (0)
+#define VF_MHCUT5(i, A, B, C, D, E)                                                                \
+        do {                                                                                       \
+                VF_ORDER(i);                                                                       \
+                vf_spec_round();                                                                   \
+                VF_A_(w[(i) & 15][g_s] == vfS.W[vfS.t - 1], "compress: schedule word equals the standard's W_t"); \
+                VF_A_(VF_X(A) == vfS.s[0] && VF_X(B) == vfS.s[1] && VF_X(C) == vfS.s[2] && VF_X(D) == vfS.s[3] && VF_X(E) == vfS.s[4], "compress: round equals the standard's round"); \
+                w[(i) & 15][g_s] = vfS.W[vfS.t - 1];                                               \
+                VF_X(A) = vfS.s[0]; VF_X(B) = vfS.s[1]; VF_X(C) = vfS.s[2]; VF_X(D) = vfS.s[3]; VF_X(E) = vfS.s[4]; \
+        } while (0)
+#define VF_MHCUT8(i, A, B, C, D, E, F, G, H)                                                       \
+        do {                                                                                       \
+                VF_ORDER(i);                                                                       \
+                vf_spec_round();                                                                   \
+                VF_WSWITCH(w[(i) & 15][g_s] == vfS.W[vfS.t - 1])                                   \
+                VF_RSWITCH(VF_X(A) == vfS.s[0] && VF_X(B) == vfS.s[1] && VF_X(C) == vfS.s[2] && VF_X(D) == vfS.s[3] && VF_X(E) == vfS.s[4] && VF_X(F) == vfS.s[5] && VF_X(G) == vfS.s[6] && VF_X(H) == vfS.s[7]) \
+                w[(i) & 15][g_s] = vfS.W[vfS.t - 1];                                               \
+                VF_X(A) = vfS.s[0]; VF_X(B) = vfS.s[1]; VF_X(C) = vfS.s[2]; VF_X(D) = vfS.s[3]; VF_X(E) = vfS.s[4]; VF_X(F) = vfS.s[5]; VF_X(G) = vfS.s[6]; VF_X(H) = vfS.s[7]; \
+        } while (0)
+#endif
